@@ -323,10 +323,10 @@ func TestScopes(t *testing.T) {
 // ---------------------------------------------------------------- key function
 
 type KeyCase struct {
-	Prefix pbt.S  `json:"prefix"`
-	Maps   [][]KV `json:"maps"`
-	Prefix2 pbt.S `json:"prefix2"`
-	Other  []KV   `json:"other"`
+	Prefix  pbt.S  `json:"prefix"`
+	Maps    [][]KV `json:"maps"`
+	Prefix2 pbt.S  `json:"prefix2"`
+	Other   []KV   `json:"other"`
 }
 
 func genKey(t *rapid.T) KeyCase {
